@@ -19,7 +19,9 @@ type IPAddr netip.Prefix
 // ParseIPAddr takes a string representation of an IP address and converts it into an IPAddr type.
 func ParseIPAddr(s string) (IPAddr, error) {
 	// We disallow IPv4-mapped IPv6 addresses in dotted notation because Cedar does.
-	if strings.Count(s, ":") >= 2 && strings.Count(s, ".") >= 2 {
+	if strings.Contains(s, "%") {
+		return IPAddr{}, fmt.Errorf("%w: IPv6 zones are not supported", errIP)
+	} else if strings.Count(s, ":") >= 2 && strings.Count(s, ".") >= 2 {
 		return IPAddr{}, fmt.Errorf("%w: cannot parse IPv4 addresses embedded in IPv6 addresses", errIP)
 	} else if net, err := netip.ParsePrefix(s); err == nil {
 		return IPAddr(net), nil
@@ -70,7 +72,9 @@ func (i IPAddr) IsLoopback() bool {
 	// 		The reason for IpV4 is that provided the truncated ip address is a
 	// 		loopback address, its prefix cannot be less than 8 because
 	// 		otherwise its more significant byte cannot be 127
-	return i.Prefix().Masked().Addr().IsLoopback()
+	addr := i.Prefix().Masked().Addr()
+	// An IPv4-mapped IPv6 address is an IPv6 address, for which only ::1 is the loopback.
+	return !addr.Is4In6() && addr.IsLoopback()
 }
 
 func (i IPAddr) Addr() netip.Addr {
@@ -96,7 +100,8 @@ func (i IPAddr) IsMulticast() bool {
 	} else {
 		minPrefixLen = 8
 	}
-	return i.Addr().IsMulticast() && i.Prefix().Bits() >= minPrefixLen
+	// An IPv4-mapped IPv6 address is an IPv6 address, for which only ff00::/8 is multicast.
+	return !i.Addr().Is4In6() && i.Addr().IsMulticast() && i.Prefix().Bits() >= minPrefixLen
 }
 
 func (i IPAddr) Contains(o IPAddr) bool {
